@@ -434,6 +434,7 @@ def check(ctx, report):
     absent_optional_fields(ctx, report)
     key_sizes_defined(ctx, report)
     code_point_texts(ctx, report)
+    rendering_parses_nothing(ctx, report)
     report.floor('C14.R1', 20, 'iteration obligations')
     report.floor('C14.R4', 15, '_asdict overrides')
 
@@ -826,6 +827,53 @@ def code_point_texts(ctx, report, RULE='C14.R16'):
                                                  and x.value.attr == fld), fld, ', '.join(null[:4])))
     report.count(RULE, n)
     report.floor(RULE, 1, 'fields dereferenced by the text of parameter objects')
+
+
+PARSE_ENTRY_POINTS = ('parse_exact_size', 'parse_immutable', 'parse_mutable')
+PARSE_ERRORS = ('InvalidValue', 'InvalidType', 'NotEnoughData', 'TooMuchData', 'InvalidDataLength', 'Exception')
+
+
+def rendering_parses_nothing(ctx, report, RULE='C14.R17'):
+    """An object that was accepted is rendered from what it holds.  A ``_asdict`` that (itself, or through a property or method of
+    its class chain) calls a parse entry point decodes bytes at rendering time: bytes that were never looked at when the object was
+    accepted (an extension value inside a certificate) make the rendering raise a parse error.  Every function reachable from a
+    ``_asdict`` of the package through ``self.<name>`` is read; a call of a parse entry point has to sit inside a ``try`` that
+    handles the parse errors."""
+    report.rule(RULE, 'rendering decodes nothing: no parse entry point is called on the way from _asdict, unless its errors are handled there')
+    model = ctx.model
+    n = 0
+    reported = set()
+    for c in model.repo_classes():
+        root = c.methods.get('_asdict')
+        if root is None:
+            continue
+        seen, todo = set(), [(root, 0)]
+        while todo:
+            f, depth = todo.pop()
+            if id(f) in seen or f.module.external:
+                continue
+            seen.add(id(f))
+            n += 1
+            me = f.node.args.args[0].arg if f.node.args.args else None
+            handled = set()
+            for t in ast.walk(f.node):
+                if isinstance(t, ast.Try) and any(h.type is None or any(e in ast.unparse(h.type) for e in PARSE_ERRORS) for h in t.handlers):
+                    for st in t.body:
+                        for x in ast.walk(st):
+                            handled.add(id(x))
+            for x in ast.walk(f.node):
+                if isinstance(x, ast.Call) and isinstance(x.func, ast.Attribute) and x.func.attr in PARSE_ENTRY_POINTS and id(x) not in handled:
+                    key = '%s@parses[%s]' % (f.construct, ast.unparse(x.func)[:50])
+                    if key not in reported:
+                        reported.add(key)
+                        report.add(RULE, key, 'rendering %s reaches %s, which decodes %s at that moment: data that does not parse makes JSON and '
+                                   'Markdown of an accepted object raise a parse error' % (c.name, f.qualname if hasattr(f, 'qualname') else f.name, ast.unparse(x)[:70]))
+                if depth < 3 and isinstance(x, ast.Attribute) and isinstance(x.value, ast.Name) and x.value.id == me:
+                    g = c.resolve(x.attr)
+                    if g is not None:
+                        todo.append((g, depth + 1))
+    report.count(RULE, n)
+    report.floor(RULE, 40, 'functions on the way from _asdict')
 
 
 def finite_numbers(ctx, report, RULE='C14.R10'):
